@@ -207,6 +207,10 @@ func (s *Session) preamble() string {
 			}
 		}
 	}
+	if s.declared["bytes2str"] {
+		// the empty byte string denotes the empty string
+		sb.WriteString("(assert (forall ((a (Array Int Int)) (o Int)) (! (= (bytes2str a o 0) 0) :pattern ((bytes2str a o 0)))))\n")
+	}
 	if s.declared["unixnano"] {
 		sb.WriteString("(assert (= (unixnano 0 0) (- 6795364578871345152)))\n")
 	}
